@@ -159,11 +159,9 @@ def dep_closure(vfile):
             continue
         seen.add(f)
         src = open(os.path.join(COQ, f)).read()
-        for m in re.finditer(r"From\s+(GoSST|GoSSTGen)\s+Require\s+(?:Import\s+|Export\s+)?([^.]*(?:\.[A-Za-z0-9_]+)*)\s*\.\s", src):
+        for m in re.finditer(r"From\s+(GoSSTGen|GoSST)\s+Require\s+(?:Import\s+|Export\s+)?(.*?)\.(?=\s)", src, flags=re.S):
             root = "theories" if m.group(1) == "GoSST" else "gen"
             for mod in m.group(2).split():
-                if mod in ("Import", "Export"):
-                    continue
                 todo.append(os.path.join(root, mod.replace(".", "/") + ".v"))
     return sorted(seen)
 
